@@ -190,8 +190,9 @@ def nontrivial(case):
 
 
 def tolerate_hash_order(case, res, cl):
-    """lazy mode forces the scoped store by iterating a hash map: the order of names is unspecified.
-    A mechanism-level disagreement after the `sforceall` event is therefore not drift."""
+    """the order in which lazy mode forces the names of the scoped store at the end is not part of any property
+    (the library sorts them since the F12 fix, and the machine follows that); a mechanism-level disagreement after
+    the `sforceall` event is still not reported as drift."""
     if not cl.get("drift") or not res or not res.get("drift"):
         return cl
     ev = case.get("events") or []
